@@ -26,7 +26,7 @@ type instrSpec struct {
 // the result plus the virtual runtime packages to the overlay. Any construct the rewriter
 // does not understand is a hard error (the check is reported as broken, never as a pass).
 func instrument(sp *spec, repo, dir string, repl map[string]string) {
-	outdir := filepath.Join(dir, "instr-"+sp.ID)
+	outdir := filepath.Join(dir, "instr-"+sp.ID+"-"+filepath.Base(sp.Pkg))
 	os.RemoveAll(outdir)
 	os.MkdirAll(outdir, 0o755)
 	for _, is := range sp.InstrFiles {
